@@ -8,6 +8,7 @@ KANI_FILES = {
     "activation": ["activation.rs"],
     "objective": ["objective.rs"],
     "network": ["layers.rs", "network.rs"],
+    "feedback": ["feedback.rs"],
     "maxpool": ["maxpool.rs"],
     "convolution": ["convolution.rs"],
     "deconvolution": ["deconvolution.rs"],
@@ -16,6 +17,7 @@ KANI_FILES = {
 # module -> native replay/search file(s) under contracts/native appended to that module's mirror (cfg verif_replay)
 NATIVE_FILES = {
     "network": ["layers.rs", "network.rs"],
+    "feedback": ["feedback.rs"],
     "maxpool": ["maxpool.rs"],
     "convolution": ["convolution.rs"],
     "deconvolution": ["deconvolution.rs"],
@@ -71,6 +73,14 @@ PLAN = {
             "soft-max shift invariance under rounding (holds for the real-number formula exp(v_i-m)/sum, which the units establish; "
             "floating-point (v+c)-max(v+c) need not equal v-max(v))",
             "soft-max for vector lengths above the stated bound"],
+    ),
+    "C09": dict(
+        title="Dropout never leaks into prediction or validation",
+        level="model_checking",
+        verus=[],
+        kani=True,
+        undecided_clauses=["layer sequences longer than 4 (the flag loops are checked on concrete sequences of 2-4 layers over all five layer kinds)",
+                           "that predict()/validate() perform no other write to the flags is read off the code, not proved"],
     ),
     "C13": dict(
         title="Early stopping and the returned histories obey their contract",
@@ -165,6 +175,18 @@ MANIFEST_TEXT = {
              "(backward = textbook derivative of forward). Soft-max is bounded in vector length.",
         note="libm contracts (F2) assumed; F1 uninterpreted floats in Verus; derivative table is mathematics (F3); iterator chains "
              "covered for singleton/small shapes only; soft-max bounded n<=3; shift invariance under rounding undecided.",
+    ),
+    "C09": dict(
+        category="model_checking",
+        technique="Kani bounded model checking of the verbatim flag-handling regions of validate()/learn() and of each layer's dropout guard",
+        design_ref="DESIGN.md §5 C09",
+        text="Bounded, exhaustive within the bound: the four flag-handling regions of Network::validate and Network::learn are emitted "
+             "verbatim as methods and run on concrete layer sequences (2-4 layers over dense / convolution / deconvolution / max-pool / "
+             "feedback) from both start states: after the validate prologue every training flag is off, the epilogue restores the state, "
+             "learn turns every flag on at entry and off at exit; the dropout guard region of every layer kind never reaches Tensor::dropout "
+             "when the layer is not training.",
+        note="bounded in sequence length; composition (prologue -> predictions -> epilogue; entry -> epochs -> exit) by program order of the "
+             "regions, read from the source; layers built with a constant Tensor::random stub and fixed hash seeds.",
     ),
     "C13": dict(
         category="model_checking",
